@@ -13,7 +13,7 @@
 //!     qfull    queue of size 1: request 1 in flight, request 2 queued, request 3 rejected; then destroy
 //!     badparam <extra> = null | zero | overflow | limit | nullitems | toomany | empty
 //!     states   client state listener until Connected, then destroy
-//! output: ffi:<return code>/<callback events joined by +>[;...] rust:<result>
+//! output: ffi:<return code>/<callback events joined by +>[;...] rust:<result> [wire:<first request ADU the peer got from the C-ABI client>/<.. from the Rust API client>  (req only)]
 //!   events: complete[:i=v,...] | failure:<ffi RequestError name>
 use super::p5_common::*;
 use rodbus::client::*;
@@ -28,9 +28,11 @@ use std::time::{Duration, Instant};
 struct Peer {
     port: u16,
     seen: Arc<AtomicUsize>,
+    /// the first request ADU this peer received, as sent on the wire
+    first: Arc<Mutex<Option<Vec<u8>>>>,
 }
 
-async fn peer_conn(mut s: tokio::net::TcpStream, seen: Arc<AtomicUsize>) {
+async fn peer_conn(mut s: tokio::net::TcpStream, seen: Arc<AtomicUsize>, first: Arc<Mutex<Option<Vec<u8>>>>) {
     use tokio::io::{AsyncReadExt, AsyncWriteExt};
     loop {
         let mut h = [0u8; 7];
@@ -44,6 +46,14 @@ async fn peer_conn(mut s: tokio::net::TcpStream, seen: Arc<AtomicUsize>) {
         let mut pdu = vec![0u8; len - 1];
         if s.read_exact(&mut pdu).await.is_err() {
             return;
+        }
+        {
+            let mut f = first.lock().unwrap();
+            if f.is_none() {
+                let mut adu = h.to_vec();
+                adu.extend(&pdu);
+                *f = Some(adu);
+            }
         }
         seen.fetch_add(1, Ordering::SeqCst);
         let fc = pdu[0];
@@ -107,12 +117,14 @@ fn start_peer(rt: &tokio::runtime::Runtime) -> Peer {
     let listener = rt.block_on(tokio::net::TcpListener::bind("127.0.0.1:0")).expect("bind");
     let port = listener.local_addr().unwrap().port();
     let seen2 = seen.clone();
+    let first = Arc::new(Mutex::new(None));
+    let first2 = first.clone();
     rt.spawn(async move {
         while let Ok((s, _)) = listener.accept().await {
-            tokio::spawn(peer_conn(s, seen2.clone()));
+            tokio::spawn(peer_conn(s, seen2.clone(), first2.clone()));
         }
     });
-    Peer { port, seen }
+    Peer { port, seen, first }
 }
 
 /// the unit id used for a request: varies with the case so that a C ABI that dropped or altered it would
@@ -435,7 +447,8 @@ fn scenario(rt: &tokio::runtime::Runtime, ffi_rt: &FfiRuntime, line: &str) -> St
             let (ch, states) = rust_channel(rt, peer2.port, 4);
             wait_until(Duration::from_secs(10), || states.lock().unwrap().iter().any(|s| s == "Connected"));
             let r = rt.block_on(rust_request(&ch, op, start, n, timeout));
-            format!("ffi:{rc}/{ev} rust:{r}")
+            let w = |p: &Peer| p.first.lock().unwrap().as_ref().map(|b| crate::util::hex(b)).unwrap_or_else(|| "-".into());
+            format!("ffi:{rc}/{ev} rust:{r} wire:{}/{}", w(&peer), w(&peer2))
         }
         "noconn" => {
             let closed = ClosedPort::new(); // nothing listens there, nobody else can take it
